@@ -3387,6 +3387,45 @@ class NonTensorData:
         return NonTensorStack(*list_of_non_tensor, stack_dim=dim)
 
     @classmethod
+    def _cat_non_tensor(cls, list_of_non_tensor, dim=0):
+        # Concatenation of non-tensor entries (NonTensorData / NonTensorStack) along a batch
+        # dim: a single NonTensorData if every item is one and all payloads agree, otherwise
+        # the per-position payloads are concatenated and rebuilt as a NonTensorStack.
+        first = list_of_non_tensor[0]
+        if dim < 0:
+            dim = first.ndim + dim
+
+        def same_payload(data):
+            if data.data is first.data:
+                return True
+            with warnings.catch_warnings():
+                # (the warning of _check_equal is about the future of stacking)
+                warnings.simplefilter("ignore")
+                return _check_equal(data.data, first.data)
+
+        if all(
+            isinstance(data, NonTensorData) for data in list_of_non_tensor
+        ) and all(same_payload(data) for data in list_of_non_tensor[1:]):
+            batch_size = list(first.batch_size)
+            batch_size[dim] = sum(data.batch_size[dim] for data in list_of_non_tensor)
+            return NonTensorData(
+                data=first.data,
+                batch_size=batch_size,
+                names=first._maybe_names(),
+                device=first.device,
+            )
+
+        def cat(lists, d):
+            if d == 0:
+                return [item for lst in lists for item in lst]
+            return [cat(list(group), d - 1) for group in zip(*lists)]
+
+        lists = [data.tolist() for data in list_of_non_tensor]
+        return NonTensorStack._from_list(
+            cat(lists, dim), device=first.device, ndim=first.ndim
+        )
+
+    @classmethod
     def __torch_function__(
         cls,
         func: Callable,
